@@ -133,6 +133,10 @@ def build_jobs(chk, tx_lite=False, rx_lite=False):
         for fr in (0, 1):
             for pat in ("D", "PP"):
                 add(dict(arc=1, ard=250), [dict(api="queue", n=3), dict(api="send", fr=fr, fates=list(pat)), dict(api="send", fr=0, fates=["D"])])
+            # ... and keeps what the caller asked for: no acknowledgement requested means one packet and True, heard or not
+            for peer in ("listening", "deaf"):
+                add(dict(arc=2, ard=250, peer=peer), [dict(api="queue", n=3), dict(api="send", fr=fr, nak=True, fates=["D"]),
+                                                      dict(api="resend"), dict(api="send", fr=0, nak=True, fates=["D"])])
     # the transmitter took a turn as receiver and left ACK payloads nobody fetched: they never leak into the next send()
     if not tx_lite:
         for nda in (False, True):
